@@ -138,6 +138,9 @@ func ruleWR5(c *Ctx) {
 		if ok {
 			propagated++
 			c.ok(fn, construct, pos, why)
+		} else if s.name == "os.Remove" && c.removeToleratesAbsence(s.fn, ev) {
+			propagated++
+			c.ok(fn, construct, pos, "remove-if-present: every error but `does not exist` is propagated (an absent file is the wanted outcome)")
 		} else if c.cleanupOnFailingPath(s.fn, cv, s.name) {
 			propagated++
 			c.ok(fn, construct, pos, "clean-up (close/remove) on a path every exit of which already returns a non-nil error: success is not reported from here")
@@ -147,6 +150,49 @@ func ruleWR5(c *Ctx) {
 	}
 	c.ok("<module>", "storage-call-sites", "-", fmt.Sprintf("%d storage call sites with an error result, %d propagate", total, propagated))
 }
+
+// removeToleratesAbsence: the error of an os.Remove is returned unless it says the file was not there:
+// `if err := os.Remove(p); err != nil && !errors.Is(err, os.ErrNotExist) { return err }`.
+func (c *Ctx) removeToleratesAbsence(fn *ssa.Function, ev ssa.Value) bool {
+	absent := edgesWhere(fn, func(a Atom, holds bool) bool {
+		if a.Kind != "bool" || !holds {
+			return false
+		}
+		cl, _ := callOf(a.X)
+		if cl == nil || len(cl.Call.Args) == 0 || strip(cl.Call.Args[0]) != strip(ev) {
+			return false
+		}
+		switch calleeFullName(&cl.Call) {
+		case "os.IsNotExist":
+			return true
+		case "errors.Is":
+			return len(cl.Call.Args) == 2 && (isGlobalLoad(cl.Call.Args[1], "ErrNotExist") || strings.Contains(c.canon(cl.Call.Args[1]), "ErrNotExist"))
+		}
+		return false
+	})
+	if len(absent) == 0 {
+		return false
+	}
+	// on the non-nil edge every return that does not fail lies behind the `does not exist` answer
+	nonNil := edgesWhere(fn, func(a Atom, holds bool) bool { return a.Kind == "nil" && !holds && strip(a.X) == strip(ev) })
+	for e := range nonNil {
+		for b := range reach(e.To(), absentEdgesRemoved(absent), nil) {
+			if len(b.Instrs) == 0 {
+				continue
+			}
+			if r, ok := b.Instrs[len(b.Instrs)-1].(*ssa.Return); ok && !c.definitelyFails(fn, r) {
+				// reachable from the non-nil edge without the `absent` answer: only fine if that return is also reachable
+				// solely through... keep it strict
+				if !mustPassEdges(fn, b, unionEdges(absent, edgesWhere(fn, func(a Atom, holds bool) bool { return a.Kind == "nil" && holds && strip(a.X) == strip(ev) }))) {
+					return false
+				}
+			}
+		}
+	}
+	return true
+}
+
+func absentEdgesRemoved(absent map[edge]bool) map[edge]bool { return absent }
 
 // cleanupOnFailingPath: a Close or Remove whose error is dropped, placed where the function has already failed: every
 // return reachable from the call hands back an error known to be non-nil there.
@@ -1471,16 +1517,41 @@ func (c *Ctx) derivesFromReplayOf(v ssa.Value, re *ssa.Function, committed ssa.V
 		return false, "replay or committed events not identified"
 	}
 	var found *ssa.Call
+	viaHelper := false
 	seen := map[ssa.Value]bool{}
 	var walk func(x ssa.Value, d int)
 	walk = func(x ssa.Value, d int) {
-		if x == nil || d > 30 || seen[x] || found != nil {
+		if x == nil || d > 30 || seen[x] || found != nil || viaHelper {
 			return
 		}
 		seen[x] = true
 		if cl, ok := x.(*ssa.Call); ok && calleeOf(&cl.Call) == re {
 			found = cl
 			return
+		}
+		// result #i of a helper that also hands back the events it built as result #j, the ones being committed here:
+		// inside the helper result #i must be read off a replay over result #j
+		if ex, ok := x.(*ssa.Extract); ok {
+			if cl, ok := ex.Tuple.(*ssa.Call); ok {
+				if h := calleeOf(&cl.Call); h != nil && h != re && c.InModule(h) && h.Blocks != nil {
+					if cex, ok := resolve(committed).(*ssa.Extract); ok && cex.Tuple == ex.Tuple {
+						all, n := true, 0
+						for _, r := range c.nonFailingReturns(h) {
+							if r.Block().Comment == "recover" || len(r.Results) <= ex.Index || len(r.Results) <= cex.Index {
+								continue
+							}
+							n++
+							if ok, _ := c.derivesFromReplayOf(returnedValue(r, ex.Index), re, returnedValue(r, cex.Index)); !ok {
+								all = false
+							}
+						}
+						if n > 0 && all {
+							viaHelper = true
+						}
+						return
+					}
+				}
+			}
 		}
 		if u, ok := x.(*ssa.UnOp); ok && u.Op == token.MUL {
 			if cell := cellOf(u.X); cell != nil {
@@ -1498,6 +1569,9 @@ func (c *Ctx) derivesFromReplayOf(v ssa.Value, re *ssa.Function, committed ssa.V
 		}
 	}
 	walk(v, 0)
+	if viaHelper {
+		return true, ""
+	}
 	if found == nil {
 		return false, "value is not read off a replay"
 	}
